@@ -388,7 +388,11 @@ def w_scale_modes(item, seed=0):
                 e = float(np.max(np.abs(wrapdiff(got[0], base[0], shape)))) if got[0] is not None else 0.0
                 ei = float(np.abs(got[1] - base[1]).max()) / iscale if got[1] is not None else 0.0
                 t.stat(f"mode_shift_diff_{dt}", e)
-                if not (e <= tol and ei <= itol):
+                # some internal coordinate tensors are created in torch's DEFAULT dtype, so float64 images are partly
+                # processed in float32 in the default mode and fully in float64 under default_dtype_float64 (observed
+                # 1e-6 px): every mode comparison uses the float32 tolerance
+                mtol = 2e-3
+                if not (e <= mtol and ei <= mtol):
                     t.fail({"relation": "result_independent_of_global_mode", "impl": impl, "dtype": dt, "mode": mode}, case, f"{impl} {dt} under {mode}: shape={shape} shift={list(s)} upsample={up}: shift {None if got[0] is None else got[0].tolist()} vs {None if base[0] is None else base[0].tolist()} in the default mode (diff {e:.3g} px), aligned image differs by {ei:.3g} of max")
     return t
 
@@ -472,8 +476,18 @@ def run(ctx):
     ctx.pmap(w_options, opt_items, label="NumPy options", seed=ctx.seed)
     sp = [((8, 11), "0", (2, -3), 4), ((9, 9), "blob", (-1, 4), 3)] if q else [(sh, w, sft, u) for sh in [(8, 11), (9, 9), (8, 8)] for w in ("0", "blob") for sft in ((2, -3), (0, 0), (-1, 4)) for u in (1, 3, 8)]
     ctx.pmap(w_spellings, sp, chunk=1, label="alternative spellings / dtypes / layouts", seed=ctx.seed)
-    sm_shifts = [(3.4, -2.3), (2.0, -3.0)] if q else [(3.4, -2.3), (2.0, -3.0), (0.0, 0.0), (-1.25, 4.5), (0.5, 0.5)]
-    sm = [(sh, w, sft, u) for sh in ([(8, 11)] if q else [(8, 11), (9, 9), (12, 16)]) for w in (["0"] if q else ["0", "blob"]) for sft in sm_shifts for u in ([1, 2, 3, 8] if q else [1, 2, 3, 4, 5, 8, 16])]
+    # Shifts for the differential comparison must not sit on a decision boundary of the estimator: at a component exactly
+    # midway between two points of the (upsampled) correlation grid — 0.5 at factor 1, 0.3 at factor 5, ... — two
+    # correlation values tie by symmetry and round-off decides, legitimately differently at another scale (first
+    # thorough runs: 62 + 31 false alarms, all at such midpoints). Generic components, guarded below.
+    sm_shifts = [(3.3251, -2.4009), (2.0, -3.0)] if q else [(3.3251, -2.4009), (2.0, -3.0), (0.0, 0.0), (-1.6749, 4.6676), (0.3251, 0.6676)]
+    sm_factors = [1, 2, 3, 8] if q else [1, 2, 3, 4, 5, 8, 16]
+    for sft in sm_shifts:
+        for c in sft:
+            for u in sm_factors:
+                if abs((c * u) % 1.0 - 0.5) < 0.04:
+                    raise Broken(f"shift component {c} is within 0.04 upsampled pixels of a grid midpoint at factor {u}: the scale comparison would be a coin toss")
+    sm = [(sh, w, sft, u) for sh in ([(8, 11)] if q else [(8, 11), (9, 9), (12, 16)]) for w in (["0"] if q else ["0", "blob"]) for sft in sm_shifts for u in sm_factors]
     ctx.coverage["bounds"]["scale_modes"] = {"scales": SCALES, "modes": MODES, "points": len(sm)}
     ctx.pmap(w_scale_modes, sm, chunk=1, label="image scale / process-wide modes", seed=ctx.seed)
     reuse = list(itertools.product(impls, [(8, 11)] if q else [(8, 11), (9, 9)], [1, 4] if q else [1, 3, 8], range(len(REUSE_CASES))))
